@@ -103,9 +103,10 @@ Section Obs.
   Definition is_none {A} (o : option A) : bool := match o with None => true | Some _ => false end.
 
   (* ---------------------------------------------------------------- the model, executed *)
-  Definition model_call (cf : cfg) (o : opts) (en : entry) (src dst : project) : sobs :=
-    let '(dst', e) := run_sync frepr cf o en src dst in
+  Definition model_call_gen (all : bool) (cf : cfg) (o : opts) (en : entry) (src dst : project) : sobs :=
+    let '(dst', e) := run_sync_gen frepr cf all o en src dst in
     {| ob_exn := e; ob_src := src; ob_dst := dst'; ob_rest_ok := true |}.
+  Definition model_call := model_call_gen false.
 
   Definition ref_opts (i : sinput) : option opts :=
     if o_dry_run (i_opts i) then Some (set_dry (i_opts i) false)
@@ -116,8 +117,8 @@ Section Obs.
     is_none (ob_exn o1) && negb (o_dry_run (i_opts i)).
 
   (* the complete observation the model predicts for an input *)
-  Definition model_case (cf : cfg) (i : sinput) : scase :=
-    let o1 := model_call cf (i_opts i) (i_entry i) (i_src i) (i_dst i) in
+  Definition model_case_gen (all : bool) (cf : cfg) (i : sinput) : scase :=
+    let o1 := model_call_gen all cf (i_opts i) (i_entry i) (i_src i) (i_dst i) in
     {| c_in := i;
        c_obs := o1;
        c_again := if wants_again i o1
@@ -126,6 +127,7 @@ Section Obs.
                 | Some o => Some (model_call cf o (i_entry i) (i_src i) (i_dst i))
                 | None => None
                 end |}.
+  Definition model_case := model_case_gen false.
 
   (* model observation [m] vs implementation observation [o].  With parallel=True/int and an exception the
      destination tree depends on the thread schedule and is not compared *)
@@ -173,7 +175,9 @@ Section Obs.
        fix_excl := fix_excl c || N.eqb k 5; fix_dryinit := fix_dryinit c || N.eqb k 6;
        fix_ignore := fix_ignore c || N.eqb k 8; fix_implicit := fix_implicit c || N.eqb k 9 |}.
   Definition active (k : N) (i : sinput) : bool :=
-    negb (scase_obs_eqb (model_case cfg_current i) (model_case (with_fix k) i)).
+    negb (scase_obs_eqb (model_case cfg_current i) (model_case (with_fix k) i))
+    || (i_parallel i
+        && negb (scase_obs_eqb (model_case_gen true cfg_current i) (model_case_gen true (with_fix k) i))).
   Fixpoint first_active (ks : list N) (i : sinput) : N :=
     match ks with
     | [] => 0%N
